@@ -112,6 +112,28 @@ theorem unitmap_tombstones_reused (m : UM) (u : UInt64) (th : Nat) (hw : WF m) (
     | some c => simp [hr] at hm
   | some m' => exact ⟨m', rfl, (hs.2 m' hm).2.2.2.2 ⟨e, he, he0⟩⟩
 
+/-- **C14 (same handle in two pools)**.  abt.h lets different user pools use the same `ABT_unit`
+value for a work unit (e.g. its `ABT_thread` handle).  Moving such a work unit from one user
+pool to another calls `unit_map_thread(u, t)` while `u ↦ t` is still mapped and then
+`unit_unmap_thread(u)` once.  For every well-formed table: the map fails only for lack of
+memory; the unmap then succeeds (no assertion), the table is well formed again and represents
+exactly the same finite map — in particular `get(u)` still returns `t` — and no chain shrank.
+(In between the unit is stored twice; the unmap removes the first occurrence.) -/
+theorem unitmap_remap_same_unit (m : UM) (u : UInt64) (t : Nat) (mem : Bool) (hw : WF m) (hu : u ≠ m.nul)
+    (hm : absMap m u = some t) :
+    (mem = true → (mapThread m u t mem).isSome = true) ∧
+    ∀ m1, mapThread m u t mem = some m1 →
+      ∃ m2, unmapThread m1 u = some m2 ∧ WF m2 ∧ m2.nul = m.nul ∧ getThread m2 u = some t ∧
+        (∀ x, absMap m2 x = absMap m x) ∧ ∀ i, (m.b i).length ≤ (m2.b i).length := by
+  have hs := remap_spec m u t mem hw hu hm
+  refine ⟨hs.1, ?_⟩
+  intro m1 h1
+  obtain ⟨m2, a1, a2, a3, a4, a5⟩ := hs.2 m1 h1
+  refine ⟨m2, a1, a2, a3.2, ?_, a4, a5⟩
+  have := a4 u
+  rw [hm] at this
+  simpa [absMap, a3.2, hu] using this
+
 theorem unitmap_chains_never_shrink (m : UM) (op : Op) (i : Nat) :
     (m.b i).length ≤ ((step m op).1.b i).length := by
   cases op with
@@ -203,8 +225,9 @@ open ArgoVerif.Model.Assoc
 /-- **C14 (create/free balance)**.  Start with no work unit associated.  After *every* legal
 sequence of `ABTI_thread_init_pool`, `ABTI_thread_set_associated_pool`,
 `ABTI_unit_set_associated_pool`, `ABTI_thread_unset_associated_pool`, hand-overs of units to
-pools and lookups — over any mix of built-in and user pools, with `create_unit` returning NULL
-or the table's `malloc` failing at arbitrary points — no table assertion fires, and for every
+pools and lookups — over any mix of built-in and user pools, with `create_unit` returning NULL,
+a handle no other work unit uses, or (user pool → user pool) the very handle the work unit
+already has, and the table's `malloc` failing at arbitrary points — no table assertion fires, and for every
 non-NULL unit handle `u` and pool `p`:
 `#create_unit(p)=u − #free_unit(p,u) = [some work unit currently has unit u and pool p]`,
 the log alternates create/free for each (u,p) (`LogOK`), so every created unit is freed
@@ -292,6 +315,17 @@ theorem assoc_unit_thread_translation (s : St) (hi : AInv s) :
     simp only [unitThread]
     simp only [UnitMap.absMap, hx0, if_false] at hm
     exact hm
+
+/-- non-vacuity for the shared-handle case: user pools 1 and 2 both use the handle 0x100 for work
+unit 7; moving it 1 → 2 → 1 logs create/free per pool, the lookup keeps answering 7 -/
+example :
+    (runOps (St.init 8 7 (fun p => p == 0))
+      [.init 7 1 0x100 true, .setPool 7 2 0x100 true, .lookup (.user 0x100), .setPool 7 1 0x100 false,
+       .lookup (.user 0x100), .unset 7]).map (fun r => (r.2, r.1.log.reverse))
+      = some ([.rc .ok, .rc .ok, .thread 7, .rc .ok, .thread 7, .done],
+              [.create 1 7 0x100, .create 2 7 0x100, .free 1 0x100, .create 1 7 0x100, .free 2 0x100,
+               .free 1 0x100]) := by
+  decide
 
 /-- non-vacuity: create in user pool 1, push to user pool 2 (create new, free old), a failing
 migration back (create_unit → NULL), to built-in pool 0 (free), free of the work unit -/
